@@ -34,6 +34,7 @@ MANIFESTS = {
     "setup.py": 'from setuptools import setup\n\nsetup(\n    name="demo",\n    version="0.1",\n    install_requires=[\n        "requests>=2",\n    ],\n)\n',
     "setup.cfg": "[metadata]\nname = demo\n\n[options]\ninstall_requires =\n    requests>=2\n    flask\n\n[flake8]\nmax-line-length = 100\n",
 }
+MANIFESTS["setup.py+site"] = MANIFESTS["setup.py"] + "\nEXTRAS = set([\"dev\", \"test\"])\n"
 
 
 # manifests that exist but cannot take a requirement: the writer returns None and the next store is tried
@@ -49,9 +50,9 @@ def manifest_files(spec):
     kind, var = spec[0], spec[1]
     out = {}
     if kind != "none":
-        out[kind] = manifest_bytes(kind, var)
+        out[kind.split("+")[0]] = manifest_bytes(kind, var)
     for u in (spec[2] if len(spec) > 2 else []):
-        if u != kind:
+        if u != kind.split("+")[0]:
             out[u] = UNUSABLE[u].encode()
     return out
 
@@ -153,6 +154,13 @@ def handle_programs(cid, kind, rendered, stats):
 # ---------------------------------------------------------------------------- (b) sequences on multi-trigger projects
 
 
+SET_LITERAL = "pixee:python/use-set-literal"
+
+
+def rule_ids():
+    return [cid for cid, k in engine.all_codemods() if k == "rule" and harvest.harvest().get(cid, {}).get("seeds")]
+
+
 def plain_ids():
     return [cid for cid, k in engine.all_codemods() if k == "plain" and harvest.harvest().get(cid, {}).get("seeds")]
 
@@ -167,12 +175,26 @@ def project_case(draw):
         seq = list(dict.fromkeys(seq))
     h = harvest.harvest()
     files = []
-    for _ in range(draw(st.integers(1, 3))):
+    # one case in four: a semgrep-rule-detected codemod and use-set-literal are both selected (either order) and a
+    # statement-level call of the rule codemod's trigger is wrapped in set([...]): two codemods of different kinds
+    # rewrite the same line, and the reported diffs must still compose in report order
+    overlap = draw(st.integers(0, 3)) == 0
+    if overlap:
+        rule = draw(st.sampled_from(rule_ids()))
+        pair = [SET_LITERAL, rule] if draw(st.booleans()) else [rule, SET_LITERAL]
+        seq = [c for c in seq if c not in pair][:1] + pair if draw(st.booleans()) else pair + [c for c in seq if c not in pair][:1]
+        parts = [{"code": draw(st.sampled_from(h[rule]["seeds"])), "results": None, "ops": [["insetlist", draw(st.integers(0, 3))], ["wrap", draw(st.sampled_from(["def", "method"]))]]} for _ in range(draw(st.integers(1, 2)))]
+        files.append({"codemod": rule, "parts": parts, "file_ops": draw(progspace.file_ops())})
+    for _ in range(draw(st.integers(1, 3)) - (1 if overlap else 0)):
         parts = []
-        for cid in draw(st.lists(st.sampled_from(seq), min_size=2, max_size=4)):
+        for cid in draw(st.lists(st.sampled_from([c for c in seq if h.get(c, {}).get("seeds")]), min_size=2, max_size=4)):
             parts.append({"code": draw(st.sampled_from(h[cid]["seeds"])), "results": None, "ops": [["wrap", draw(st.sampled_from(["def", "def", "method", "nested"]))]] + draw(progspace.part_ops())})
         files.append({"codemod": seq[0], "parts": parts, "file_ops": draw(progspace.file_ops())})
-    mkind = draw(st.sampled_from(["none", "requirements.txt", "requirements.txt", "pyproject.toml", "setup.py", "setup.cfg"]))
+    mkind = draw(st.sampled_from(["none", "requirements.txt", "requirements.txt", "pyproject.toml", "setup.py", "setup.py", "setup.cfg"]))
+    if mkind == "setup.py" and set(seq) & set(ADDERS) and draw(st.booleans()):
+        # setup.py is itself a source file: it carries a site of a codemod that runs after the dependency writer
+        mkind = "setup.py+site"
+        seq = [c for c in seq if c != SET_LITERAL] + [SET_LITERAL]
     mvar = draw(st.sampled_from(["lf", "lf", "crlf", "nofinalnl", "trailing-blank", "trailing-ws", "leading-blank", "crlf+trailing-blank"]))
     unusable = draw(st.lists(st.sampled_from(sorted(UNUSABLE)), max_size=2, unique=True)) if draw(st.integers(0, 2)) == 0 else []
     return {"sequence": seq, "files": files, "manifest": [mkind, mvar, unusable]}
@@ -183,7 +205,7 @@ def manifest_bytes(kind, var):
     if "trailing-blank" in var:
         text = text + "\n\n"
     if var == "trailing-ws":
-        text = text + "   \n" if kind != "setup.py" else text + "\n  \n"
+        text = text + "   \n" if not kind.startswith("setup.py") else text + "\n  \n"
     if var == "leading-blank":
         text = "\n\n" + text
     if "crlf" in var:
@@ -215,6 +237,8 @@ def eval_project(case, stats):
         labels.append("b:unusable-manifest-first")
     if set(case["sequence"]) & set(ADDERS):
         labels.append("b:has-dependency-adder")
+    if any(op[0] == "insetlist" for fc in case["files"] for part in fc["parts"] for op in part["ops"]):
+        labels.append("b:plain-and-rule-codemod-on-one-line")
     feats = ["manifest:" + mkind, "manifest-variant:" + mvar] if mkind != "none" else []
     judge_project(obs, stats, "sequence", {"project": case}, feats, labels,
                   sample={"sequence": case["sequence"], "manifest": case["manifest"], "files": [rd["data"].decode("utf-8", "replace")[:400] for _, rd in rendered]})
